@@ -798,7 +798,18 @@ func (g *generator) nextInner() Op {
 				continue
 			}
 			op := Op{Op: "BatchExchange", Api: "Batch.Exchange", F: f, Add: add, Rem: rem, Tgt: -1}
+			keptRel := -1
+			for _, c := range common {
+				if contains(g.rels, c) && !contains(rem, c) && len(match) > 0 {
+					keptRel = c
+				}
+			}
 			switch {
+			case keptRel >= 0 && newRel < 0 && g.pct(45):
+				// re-target the relation every matching entity keeps (zero, alive, recycled or - if faulty - dead target)
+				op.Api = "Relations.ExchangeBatch"
+				op.HasRel, op.Rel = true, keptRel
+				op.Tgt = g.target(faulty && g.pct(50))
 			case len(rem) == 0 && g.pct(50):
 				op.Api = "Batch.Add"
 			case len(add) == 0 && g.pct(50):
